@@ -35,6 +35,9 @@ CHECKS = {
     "C07": ("exploration", "reference-interpreter differential: type-directed generated programs run on the ASan+UBSan CLI, stdout / first runtime error (kind, line) compared with an independent interpreter written from the docs",
             "Every generated program over the documented classical core printed exactly what the reference interpreter computed, or raised the runtime error it predicted at the same line.",
             "Reference = vlib/gen_classical.py; ranges where the docs do not fix the result are kept out and listed in the evidence.", "DESIGN.md 3/C07"),
+    "C12": ("exploration", "crash oracle over ASan+UBSan CLI executions (signal / sanitizer report / raw-exception text / extra diagnostic lines) on a union workload: hostile edge-value templates, generated classical, quantum and class programs",
+            "Every accepted program executed ended with status 0 or one 'Runtime error' diagnostic; no signal, no ASan report, no crash-class UBSan report, no raw C++ exception text.",
+            "A clean sanitizer run is not memory safety (intra-object overflows, reuse after quarantine are invisible); value-UB is reported, not judged.", "DESIGN.md 3/C12"),
 }
 
 NOT_YET = {}
